@@ -231,7 +231,8 @@ namespace detail
 	{
 		GLM_STATIC_ASSERT(std::numeric_limits<genIUType>::is_integer, "'mask' accepts only integer values");
 
-		return Bits >= static_cast<genIUType>(sizeof(genIUType) * 8) ? ~static_cast<genIUType>(0) : (static_cast<genIUType>(1) << Bits) - static_cast<genIUType>(1);
+		typedef typename detail::make_unsigned<genIUType>::type U;
+		return Bits >= static_cast<genIUType>(sizeof(genIUType) * 8) ? ~static_cast<genIUType>(0) : static_cast<genIUType>((static_cast<U>(1) << Bits) - static_cast<U>(1));
 	}
 
 #if GLM_COMPILER & GLM_COMPILER_CLANG
